@@ -227,16 +227,31 @@ def gate_names(facts):
                     pn = next(iter(wl))
                 if un is None and len(ml) == 1:
                     un = next(iter(ml))
+                    # which answer means "accepted": the one under which an insert of an absent key is applied (the question may be
+                    # phrased negatively: `verdict == Stale`)
+                    pol = set()
+                    for (pre_, log_), res_ in orswot_abs.summarize_mutator(facts, roles, mu).items():
+                        if pre_[0] == 'none' and isinstance(res_, tuple) and res_ and res_[0] == 'in':
+                            for ent in log_:
+                                if isinstance(ent, tuple) and isinstance(ent[0], str) and ent[0].endswith('.' + un):
+                                    pol.add(bool(ent[1]))
+                    if len(pol) == 1:
+                        UPD_ACCEPTS[un] = pol.pop()
+                    else:
+                        un = None
         except Exception:
             pass
     return pn, un
+
+
+UPD_ACCEPTS = {}          # the answer of the update question that means "accepted" (True unless the question is phrased negatively)
 
 
 def classify(log, pred, upd):
     """('refused-by-cutoff' | 'open' | 'mismatch' | 'other') from the oracle answers of one resolution"""
     log = [(lab, v) for lab, v in log if lab != 'int-compare']
     before = [v for lab, v in log if lab.endswith('.' + pred)] if pred else []
-    accept = [v for lab, v in log if lab.endswith('.' + upd)] if upd else []
+    accept = [(bool(v) == UPD_ACCEPTS.get(upd, True)) for lab, v in log if lab.endswith('.' + upd)] if upd else []
     other = [lab for lab, v in log if not (pred and lab.endswith('.' + pred)) and not (upd and lab.endswith('.' + upd))]
     if other:
         return 'other'
